@@ -4,6 +4,7 @@ import (
 	"fmt"
 	"go/ast"
 	"go/types"
+	"golang.org/x/tools/go/types/typeutil"
 	"math/big"
 	"strings"
 
@@ -33,13 +34,26 @@ func checkC11(c *Ctx) {
 	r.NotDecided = []string{"when the janitor runs", "how much and which entries an eviction removes (C12)"}
 	c.c11Boundary()
 	c.defaultsRule("R11.1", map[string]*big.Rat{"DeleteExpiredAfter": big.NewRat(24*3600*1000000000, 1)})
+	c.configWriters("R11.1", "DeleteExpiredAfter", "TimeToLive")
 	for _, b := range backends {
 		c.c11DeleteExpired(b)
 	}
 	c.c11ScanSkip()
 	c.c11NoCopy()
 	c.c11WhoDeletes()
-	c.borrow("C12", func() { c.c12Cleanup() }, func(o *coreObl) (string, bool) { return "R11.6", o.Rule == "R12.1" })
+	c.borrow("C07", func() {
+		for _, b := range backends {
+			c.c07Batch(b)
+		}
+	}, func(o *coreObl) (string, bool) { return "R11.6", o.Rule == "R07.4" && strings.HasSuffix(o.Construct, ".Len") })
+	c.borrow("C12", func() { c.c12Cleanup() }, func(o *coreObl) (string, bool) {
+		if o.Rule != "R12.1" {
+			return "", false
+		}
+		// only the direction C11 needs: no eviction without a breach (a cycle that fails to evict does not remove fresh entries)
+		relevant := o.Status == "discharged" || o.What == "evict-without-breach" || o.What == "stale-memstats" || o.What == "evict-called-directly"
+		return "R11.6", relevant
+	})
 }
 
 func cleanupPolicy() pw.Policy {
@@ -386,6 +400,39 @@ func (c *Ctx) c11WhoDeletes() {
 	}
 	n := 0
 	bad := false
+	// an unexported helper all of whose callers are (helpers of) the allowed operations belongs to them
+	callers := map[*types.Func]map[*types.Func]bool{}
+	byName := map[*types.Func]string{}
+	c.eachFuncDecl(func(fd *ast.FuncDecl, fn *types.Func) {
+		byName[fn.Origin()] = strings.TrimPrefix(pw.FuncName(fn), "cache.")
+		ast.Inspect(fd.Body, func(x ast.Node) bool {
+			switch x := x.(type) {
+			case *ast.CallExpr:
+				if callee, _ := typeutil.Callee(info, x).(*types.Func); callee != nil && callee.Pkg() == c.Pkg.Types {
+					if callers[callee.Origin()] == nil {
+						callers[callee.Origin()] = map[*types.Func]bool{}
+					}
+					callers[callee.Origin()][fn.Origin()] = true
+				}
+			}
+			return true
+		})
+	})
+	var isAllowed func(fn *types.Func, depth int) bool
+	isAllowed = func(fn *types.Func, depth int) bool {
+		if allowed[byName[fn]] {
+			return true
+		}
+		if fn.Exported() || depth > 3 || len(callers[fn]) == 0 {
+			return false
+		}
+		for caller := range callers[fn] {
+			if !isAllowed(caller, depth+1) {
+				return false
+			}
+		}
+		return true
+	}
 	c.eachFuncDecl(func(fd *ast.FuncDecl, fn *types.Func) {
 		name := strings.TrimPrefix(pw.FuncName(fn), "cache.")
 		ast.Inspect(fd.Body, func(x ast.Node) bool {
@@ -416,7 +463,7 @@ func (c *Ctx) c11WhoDeletes() {
 				return true
 			}
 			n++
-			if !allowed[name] {
+			if !isAllowed(fn.Origin(), 0) {
 				bad = true
 				r.Bad("R11.5", name, "unexpected-deleter", c.Pos(call.Pos()), "storage entries are deleted outside Delete/DeleteAll/deleteExpired/evictLeast", nil)
 			}
@@ -424,8 +471,8 @@ func (c *Ctx) c11WhoDeletes() {
 		})
 	})
 	r.Count("storage_delete_sites", n)
-	if n < 10 {
-		r.Unknown("R11.5", "package", fmt.Sprintf("only %d storage delete sites found, expected ≥ 10", n))
+	if n < 3 {
+		r.Unknown("R11.5", "package", fmt.Sprintf("only %d storage delete sites found, expected ≥ 3", n))
 	} else if !bad {
 		r.OK("R11.5", "package", fmt.Sprintf("%d storage delete sites, all in Delete/DeleteAll/deleteExpired/evictLeast", n))
 	}
